@@ -467,8 +467,11 @@ class StmtMixin:
         accv = self.frame.locals.get(acc)
         if not (isinstance(accv, VRef) and isinstance(accv.typ, ty.TList)):
             return False
+        inner_loops = any(isinstance(nd, (ast.For, ast.While)) for nd in ast.walk(ast.Module(body=body, type_ignores=[])))
         for nd in ast.walk(ast.Module(body=body, type_ignores=[])):
-            if isinstance(nd, (ast.Break, ast.Continue, ast.Return, ast.While)):
+            if isinstance(nd, (ast.Break, ast.Return, ast.While)):
+                return False
+            if isinstance(nd, ast.Continue) and inner_loops:
                 return False
         gens = [(n.target, n.iter) for n in nest]
         appended = []
@@ -481,6 +484,8 @@ class StmtMixin:
             self._acc_capture = (acc, appended)
             try:
                 self.exec_block(body)
+            except _Continue:
+                pass            # `continue` in the innermost body: this iteration contributes what it appended so far
             finally:
                 self._acc_capture = None
             if len(appended) > 1:
